@@ -111,7 +111,9 @@ fn judge(w: &World, rep: &mut Report, slate_id: uuid::Uuid, after: &str, full_lo
 	}
 	// coinbase rewards of orphaned blocks are not counted (after a full look)
 	if full_look {
-		for o in outs.iter().filter(|o| o.is_coinbase && (o.status == OutputStatus::Unspent || o.status == OutputStatus::Locked)) {
+		// (a refresh, and the refresh at the start of a scan, look at the active account: its records are the ones judged)
+		let active = wal.active_account().ok();
+		for o in outs.iter().filter(|o| o.is_coinbase && Some(&o.root_key_id) == active.as_ref() && (o.status == OutputStatus::Unspent || o.status == OutputStatus::Locked)) {
 			if !w.is_unspent(&wal.commit_of(o)) {
 				rep.violation(&format!("C18|orphaned-coinbase-still-counted|after={}", after), &format!("after {} a coinbase output of an orphaned block (value {}, height {}) is still {}", after, o.value, o.height, status_str(&o.status)), case.clone());
 			}
@@ -130,6 +132,17 @@ fn judge(w: &World, rep: &mut Report, slate_id: uuid::Uuid, after: &str, full_lo
 fn scenario(a: &Args, rep: &mut Report, rng: &mut Rng, si: usize) {
 	let dir = format!("{}/s{}", a.work, si);
 	let mut w = World::two(&dir);
+	// every other scenario (done first, so that these blocks lie far below any fork point): the recipient wallet has a second account (sorting after the default one) whose
+	// log entries - coinbases - carry the same per-account log ids as the payment will get in the default account
+	let second_account = si % 2 == 1;
+	if second_account {
+		let _ = w.wallets[1].create_account("acct1");
+		let _ = w.wallets[1].set_account("acct1");
+		let _ = w.mine_n(Some(1), 3 + rng.usize(3));
+		let _ = w.wallets[1].refresh();
+		let _ = w.wallets[1].set_account("default");
+		rep.count("recipient-has-a-second-account-with-colliding-log-ids");
+	}
 	let _ = w.mine_n(Some(0), 4);
 	let _ = w.mine_n(None, 3 + rng.usize(3));
 	let _ = w.wallets[0].refresh();
